@@ -195,3 +195,54 @@ def mutate_tokens(rnd: random.Random, toks: list[str], n: int, joiner) -> list[s
             t[i], t[j] = t[j], t[i]
         out.append(joiner(t))
     return out
+
+
+SOUP_CPS = [92, 92, 110, 114, 116, 48, 120, 117, 123, 125, 34, 39, 10, 9, 97, 66, 0x1F600, 0xE9, 32, 47, 45]
+
+
+def literal_soup(rnd: random.Random, n: int) -> list[str]:
+    """Grammars whose literals mix backslashes, quotes and the escape letters in every order (\\ followed by n, ...)."""
+    out = []
+    for _ in range(n):
+        rules = []
+        for j in range(rnd.randint(1, 3)):
+            cps = [rnd.choice(SOUP_CPS) for _ in range(rnd.randint(0, 5))]
+            kind = rnd.randrange(5)
+            if kind == 0:
+                body = lit(cps, rnd)
+            elif kind == 1:
+                body = "^" + lit(cps, rnd)
+            elif kind == 2:
+                lo, hi = sorted([rnd.choice(SOUP_CPS), rnd.choice(SOUP_CPS)])
+                body = lit([lo], rnd, "'") + ".." + lit([hi], rnd, "'")
+            elif kind == 3:
+                body = "PUSH_LITERAL(" + lit(cps, rnd) + ")"
+            else:
+                body = lit(cps, rnd) + " ~ " + lit([rnd.choice(SOUP_CPS)], rnd)
+            rules.append(f"r{j} = {{ {body} }}")
+        out.append("\n".join(rules))
+    return out
+
+
+def escape_probes(rnd: random.Random, thorough: bool) -> list[str]:
+    """String and character literals with every short payload after \\x and \\u{ (valid and malformed)."""
+    pool = list("09afAF") + ["-", "+", " ", "g", "_", "}"]
+    out = []
+    for a in pool:
+        for b in pool:
+            out.append(f'r = {{ "\\x{a}{b}" }}')
+            out.append(f"r = {{ '\\x{a}{b}'..'z' }}")
+    import itertools  # noqa: PLC0415
+
+    for n in (1, 2, 3):
+        for t in itertools.product(pool, repeat=n):
+            out.append('r = { "\\u{' + "".join(t) + '}" }')
+    for _ in range(300 if not thorough else 3000):
+        k = rnd.randint(4, 8)
+        payload = "".join(rnd.choice(pool) for _ in range(k))
+        out.append(rnd.choice(['r = { "\\u{%s}" }', "r = { '\\u{%s}'..'\\u{10FFFF}' }", 'r = { ^"\\u{%s}x" }', 'r = { PUSH_LITERAL("\\u{%s}") }']) % payload)
+    for tail in ["", "\\", "\\x", "\\x4", "\\u", "\\u{", "\\u{4", "\\u{41", "\\u{41}", "\\q", "\\ ", "\\\n"]:
+        out.append('r = { "a' + tail)
+        out.append('r = { "a' + tail + '" }')
+        out.append("r = { '" + tail + "'..'b' }")
+    return out
